@@ -13,50 +13,68 @@ import (
 	"verif/simdisk"
 )
 
-// touchedBy returns the ids of all elements a block spends, revises, resolves
-// or creates (used for the one-sided retention rule).
-func touchedBy(n *gen.Node) map[types.Hash256]bool {
+// dropCauses returns the ids whose use as an input the statement accepts as a
+// reason for a pooled transaction to disappear when block n is applied
+// (applied=true: everything the block spends, revises or resolves - those
+// inputs are "spent on the chain") or reverted (applied=false: everything the
+// block had created, revised or resolved - those inputs are "reverted on the
+// chain", even if another branch creates them again). An input that a block
+// merely CREATES when it is applied (a pooled parent gets confirmed) is no
+// reason: the child has to stay.
+func dropCauses(n *gen.Node, applied bool) map[types.Hash256]bool {
 	t := map[types.Hash256]bool{}
 	b := n.Block
 	for _, txn := range b.Transactions {
-		for _, in := range txn.SiacoinInputs {
-			t[types.Hash256(in.ParentID)] = true
-		}
-		for _, in := range txn.SiafundInputs {
-			t[types.Hash256(in.ParentID)] = true
-		}
 		for _, r := range txn.FileContractRevisions {
 			t[types.Hash256(r.ParentID)] = true
 		}
 		for _, p := range txn.StorageProofs {
 			t[types.Hash256(p.ParentID)] = true
 		}
-		for i := range txn.SiacoinOutputs {
-			t[types.Hash256(txn.SiacoinOutputID(i))] = true
-		}
-		for i := range txn.FileContracts {
-			t[types.Hash256(txn.FileContractID(i))] = true
+		if applied {
+			for _, in := range txn.SiacoinInputs {
+				t[types.Hash256(in.ParentID)] = true
+			}
+			for _, in := range txn.SiafundInputs {
+				t[types.Hash256(in.ParentID)] = true
+			}
+		} else {
+			for i := range txn.SiacoinOutputs {
+				t[types.Hash256(txn.SiacoinOutputID(i))] = true
+			}
+			for i := range txn.SiafundOutputs {
+				t[types.Hash256(txn.SiafundOutputID(i))] = true
+			}
+			for i := range txn.FileContracts {
+				t[types.Hash256(txn.FileContractID(i))] = true
+			}
 		}
 	}
 	for _, txn := range b.V2Transactions() {
 		id := txn.ID()
-		for _, in := range txn.SiacoinInputs {
-			t[types.Hash256(in.Parent.ID)] = true
-		}
-		for _, in := range txn.SiafundInputs {
-			t[types.Hash256(in.Parent.ID)] = true
-		}
 		for _, r := range txn.FileContractRevisions {
 			t[types.Hash256(r.Parent.ID)] = true
 		}
 		for _, r := range txn.FileContractResolutions {
 			t[types.Hash256(r.Parent.ID)] = true
 		}
-		for i := range txn.SiacoinOutputs {
-			t[types.Hash256(txn.SiacoinOutputID(id, i))] = true
-		}
-		for i := range txn.FileContracts {
-			t[types.Hash256(txn.V2FileContractID(id, i))] = true
+		if applied {
+			for _, in := range txn.SiacoinInputs {
+				t[types.Hash256(in.Parent.ID)] = true
+			}
+			for _, in := range txn.SiafundInputs {
+				t[types.Hash256(in.Parent.ID)] = true
+			}
+		} else {
+			for i := range txn.SiacoinOutputs {
+				t[types.Hash256(txn.SiacoinOutputID(id, i))] = true
+			}
+			for i := range txn.SiafundOutputs {
+				t[types.Hash256(txn.SiafundOutputID(id, i))] = true
+			}
+			for i := range txn.FileContracts {
+				t[types.Hash256(txn.V2FileContractID(id, i))] = true
+			}
 		}
 	}
 	if n.Parent != nil && n.Parent.Valid() {
@@ -64,48 +82,32 @@ func touchedBy(n *gen.Node) map[types.Hash256]bool {
 			t[types.Hash256(id)] = true
 		}
 	}
-	// everything else the block creates or consumes without a transaction
-	// naming it: miner payouts, foundation subsidy, siafund claims, the outputs
-	// of resolved / expired contracts - the difference of the ledgers around it
+	// everything the block consumes (applied) or had created (reverted) without
+	// a transaction naming it: miner payouts, foundation subsidy, siafund
+	// claims, the outputs of resolved / expired contracts - the difference of
+	// the ledgers around it, in the direction that matters
 	if n.Parent != nil && n.Parent.Valid() && n.Valid() {
-		a, b := n.Parent.L, n.L
-		for id := range b.SC {
-			if _, ok := a.SC[id]; !ok {
+		before, after := n.Parent.L, n.L
+		if !applied {
+			before, after = n.L, n.Parent.L // what reverting the block takes away
+		}
+		for id := range before.SC {
+			if _, ok := after.SC[id]; !ok {
 				t[types.Hash256(id)] = true
 			}
 		}
-		for id := range a.SC {
-			if _, ok := b.SC[id]; !ok {
+		for id := range before.SF {
+			if _, ok := after.SF[id]; !ok {
 				t[types.Hash256(id)] = true
 			}
 		}
-		for id := range b.SF {
-			if _, ok := a.SF[id]; !ok {
+		for id := range before.V2FC {
+			if _, ok := after.V2FC[id]; !ok {
 				t[types.Hash256(id)] = true
 			}
 		}
-		for id := range a.SF {
-			if _, ok := b.SF[id]; !ok {
-				t[types.Hash256(id)] = true
-			}
-		}
-		for id := range b.V2FC {
-			if _, ok := a.V2FC[id]; !ok {
-				t[types.Hash256(id)] = true
-			}
-		}
-		for id := range a.V2FC {
-			if _, ok := b.V2FC[id]; !ok {
-				t[types.Hash256(id)] = true
-			}
-		}
-		for id := range b.FC {
-			if _, ok := a.FC[id]; !ok {
-				t[types.Hash256(id)] = true
-			}
-		}
-		for id := range a.FC {
-			if _, ok := b.FC[id]; !ok {
+		for id := range before.FC {
+			if _, ok := after.FC[id]; !ok {
 				t[types.Hash256(id)] = true
 			}
 		}
@@ -331,15 +333,25 @@ func runC05(e *sim.Env) {
 			touched := false
 			log := s.store.tipLog
 			for i := t.lastSeen; i < len(log) && !touched; i++ {
-				// the block applied is log[i]; the block reverted is the tip before it
-				for _, idx := range []types.ChainIndex{log[i], prevTip(log, i, tree)} {
-					if n, ok := tree.ByID[idx.ID]; ok {
-						tb := touchedBy(n)
-						for _, in := range t.inputs {
-							if tb[in] {
-								touched = true
-							}
-						}
+				// an apply moved the tip to log[i]; a revert moved it from the
+				// previous entry (the reverted block) to its parent log[i]
+				cur, okc := tree.ByID[log[i].ID]
+				prev, okp := tree.ByID[prevTip(log, i, tree).ID]
+				if !okc || !okp {
+					continue
+				}
+				var tb map[types.Hash256]bool
+				switch {
+				case cur.Parent == prev:
+					tb = dropCauses(cur, true)
+				case prev.Parent == cur:
+					tb = dropCauses(prev, false)
+				default:
+					continue
+				}
+				for _, in := range t.inputs {
+					if tb[in] {
+						touched = true
 					}
 				}
 			}
@@ -553,6 +565,59 @@ func runC05(e *sim.Env) {
 		tip = newTip
 		step("after AddBlocks")
 
+		if e.Chance(1, 4) {
+			// another miner's block that confirms only the front part of the pool
+			// (any prefix is a valid block body): what it leaves out - children of
+			// confirmed parents in particular - has to stay pooled
+			p := snapPool(e, "C05", s.cm)
+			cs := tip.L.State
+			var bt []types.Transaction
+			var bv []types.V2Transaction
+			total := len(p.v1)
+			if tip.Height+1 >= net.Allow() {
+				total += len(p.v2)
+			}
+			if total >= 2 {
+				k := e.Range(1, total-1)
+				var weight uint64
+				for _, txn := range p.v1 {
+					if len(bt)+len(bv) == k {
+						break
+					}
+					if weight += cs.TransactionWeight(txn); weight > cs.MaxBlockWeight() {
+						break
+					}
+					bt = append(bt, txn)
+				}
+				if len(bt) == len(p.v1) {
+					for _, txn := range p.v2 {
+						if len(bt)+len(bv) == k {
+							break
+						}
+						if weight += cs.V2TransactionWeight(txn); weight > cs.MaxBlockWeight() {
+							break
+						}
+						bv = append(bv, txn)
+					}
+				}
+				blk := gen.AssembleBlock(e, net, cs, tree.Timestamp(e, tip, bo.Now, false), types.VoidAddress, bt, bv, tip.Height+1 >= net.Allow())
+				if n, lerr := tree.AddForeign(tip, blk); lerr == nil {
+					var merr error
+					e.Guard("C05.panic", "AddBlocks(prefix block)", func() { merr = s.cm.AddBlocks([]types.Block{blk}) })
+					if merr != nil {
+						e.Violationf("C05.pool-minable", "prefix-block-rejected", "a block made of the first %d of %d reported pool transactions on top of %s was rejected: %v", k, total, tip.Describe(), merr)
+					}
+					if s.cm.Tip() == n.Index() {
+						tip = n
+						e.Probe("prefix_of_pool_confirmed")
+						e.Shape("prefix-block", bucket(k))
+						step("after a block confirming a prefix of the pool")
+					}
+				} else {
+					e.Violationf("C05.pool-minable", "prefix-block-invalid", "a block made of the first %d of %d reported pool transactions on top of %s is invalid: %v", k, total, tip.Describe(), lerr)
+				}
+			}
+		}
 		if e.Chance(1, 5) {
 			// mine from the pool with the real miner, on the node and on a linear twin
 			var blk types.Block
@@ -592,7 +657,7 @@ func prevTip(log []types.ChainIndex, i int, tree *gen.Tree) types.ChainIndex {
 func init() {
 	register(&Prop{
 		ID: "C05", Run: runC05, Quick: 700, Thorough: 20000, Level: "exploration",
-		Rule:        "one run = C02-style history interleaved with pool submissions drawn from the reference ledger at the tip or at a stale basis (ancestor or other branch): valid v1/v2 sets with parent/child chains over ephemeral outputs, contract formation/revision/resolution, 1 run in 12 with ~0.9-block-weight transactions to reach eviction; after every submission, every AddBlocks call and every coreutils.MineBlock: the reported pool (v1 then v2) validates prefix by prefix on a fresh mid-state of the tip with ledger supplements and ledger proofs, a block assembled from it is valid, mined blocks are accepted by the node and a linear twin, and every previously accepted transaction that disappeared has a cause the statement allows (confirmed, an input touched by a block applied or reverted since last seen, no longer valid on top of tip+pool, pool over its weight limit); distinct = abstract trace; non-trivial = a reorg reverting blocks under a non-empty history",
+		Rule:        "one run = C02-style history interleaved with pool submissions drawn from the reference ledger at the tip or at a stale basis (ancestor or other branch): valid v1/v2 sets with parent/child chains over ephemeral outputs, contract formation/revision/resolution, 1 run in 12 with ~0.9-block-weight transactions to reach eviction; after every submission, every AddBlocks call, every block that confirms a drawn prefix of the reported pool and every coreutils.MineBlock: the reported pool (v1 then v2) validates prefix by prefix on a fresh mid-state of the tip with ledger supplements and ledger proofs, a block assembled from it is valid, mined blocks are accepted by the node and a linear twin, and every previously accepted transaction that disappeared has a cause the statement allows (confirmed, an input spent (or a contract revised / resolved) by a block applied since it was last seen, or created by a block reverted since then, no longer valid on top of tip+pool, pool over its weight limit); distinct = abstract trace; non-trivial = a reorg reverting blocks under a non-empty history",
 		Real:        []string{"chain.Manager (pool, reorg pool updates)", "chain.DBStore", "coreutils.MineBlock"},
 		Stub:        []string{"disk: simdisk.DB"},
 		Assumptions: []string{"retention is checked one-sidedly: a disappearance is flagged only when none of the allowed causes applies", "eviction order under a full pool is not checked, only that eviction happens solely when the pool is near its limit"},
